@@ -252,8 +252,11 @@ func (f *FS) openLocked(name string, flag int, perm FileMode) (*File, error) {
 		rec.Inject = ie.Error()
 		return fail(ie)
 	}
-	if e != 0 {
+	if e != 0 && !(e == syscall.ENOTDIR && r.parent != nil && flag&O_CREATE != 0 && strings.HasSuffix(name, "/")) {
 		return fail(e)
+	}
+	if flag&O_CREATE != 0 && strings.HasSuffix(name, "/") {
+		return fail(syscall.EISDIR)
 	}
 	n := r.node
 	if n == nil {
@@ -496,6 +499,9 @@ func Remove(name string) error {
 		return fail(syscall.EACCES)
 	}
 	delete(r.parent.ents, r.name)
+	if r.node.kind == kDir {
+		r.node.gone = true
+	}
 	r.parent.mtime = f.now()
 	f.addPend(&dirOp{kind: "unlink", dir: r.parent, name: r.name})
 	rec.Mut = true
@@ -549,17 +555,53 @@ func Rename(oldpath, newpath string) error {
 		rec.Inject = ie.Error()
 		return fail(ie)
 	}
-	if eo != 0 {
+	// os.Rename itself refuses an existing directory as the new name (Lstat first)
+	if en == 0 && rn.node != nil && rn.node.kind == kDir {
+		if eo != 0 {
+			return fail(eo)
+		}
+		if ro.node == nil {
+			return fail(syscall.ENOENT)
+		}
+		if newpath == oldpath || ro.node != rn.node {
+			return fail(syscall.EEXIST)
+		}
+	}
+	// kernel order: both parents first, then the last component of old, then of new
+	if eo != 0 && !ro.atLast {
 		return fail(eo)
 	}
-	if en != 0 {
+	if en != 0 && !rn.atLast {
 		return fail(en)
+	}
+	if eo != 0 {
+		return fail(eo)
 	}
 	if ro.node == nil {
 		return fail(syscall.ENOENT)
 	}
+	if en != 0 {
+		return fail(en)
+	}
 	if ro.parent == nil || rn.parent == nil {
 		return fail(syscall.EBUSY)
+	}
+	if ro.node.kind == kDir && ro.node != rn.node {
+		var inside func(n *inode) bool
+		inside = func(n *inode) bool {
+			if n == rn.parent {
+				return true
+			}
+			for _, c := range n.ents {
+				if c.kind == kDir && inside(c) {
+					return true
+				}
+			}
+			return false
+		}
+		if inside(ro.node) {
+			return fail(syscall.EINVAL)
+		}
 	}
 	if !f.mayWrite(ro.parent) || !f.mayWrite(rn.parent) {
 		return fail(syscall.EACCES)
@@ -580,6 +622,9 @@ func Rename(oldpath, newpath string) error {
 		}
 	}
 	delete(ro.parent.ents, ro.name)
+	if rn.node != nil && rn.node.kind == kDir {
+		rn.node.gone = true
+	}
 	rn.parent.ents[rn.name] = ro.node
 	ro.parent.mtime = f.now()
 	rn.parent.mtime = f.now()
@@ -1124,6 +1169,11 @@ func (fl *File) readdirCommon(n int, op string) ([]string, error) {
 		rec.Err = syscall.ENOTDIR.Error()
 		f.record(rec)
 		return nil, perr(op, fl.name, syscall.ENOTDIR)
+	}
+	if fl.node.gone {
+		rec.Err = syscall.ENOENT.Error()
+		f.record(rec)
+		return nil, perr(op, fl.name, syscall.ENOENT)
 	}
 	if !fl.dirRead {
 		fl.loadDir()
